@@ -582,6 +582,10 @@ def work_no_blocking(chunk):
 
 
 def replay(case):
+    if case.get("engine") == "loomx":
+        from .. import loomx as _lx
+
+        return _lx.replay(case)
     if case.get("driver") == "sync-concurrent":
         common.prepare_stage()
         r = work_sync_concurrent([case])
@@ -683,6 +687,12 @@ def run(tier):
     # counters shared by the sessions must not make one wait for another (the receive path holds a pooled buffer while it waits)
     ccases = [{"driver": "sync-concurrent", "cfg": c.describe(), "n": n, "late_at": 0.3} for c in (Cfg("v2c"), Cfg("v3", auth=1)) for n in ((1, 16, 40) if not thorough else (1, 2, 8, 16, 17, 40, 100))]
     common.run_cases(rec, work_sync_concurrent, ccases, chunk=1, nproc=2)
+    # the same question put to the pool itself under loom: one thread keeps 24 handles (waiting receivers) while another acquires
+    # and releases, every interleaving within the preemption bound - every acquire returns (no waiting for a release)
+    from .. import loomx
+
+    n_l = loomx.explore(rec, 2, 0, 3 if thorough else 2, hold=24)
+    rec.extra["loom_pool_hold"] = {"handles_held": 24, "schedules": n_l}
     # nothing in the async client may block the event loop: while one session is being rate-limited, the timers of all
     # others must keep running (a blocking sleep is invisible to virtual time, so it is observed directly)
     common.run_cases(rec, work_no_blocking, [{"cfg": c.describe()} for c in (Cfg("v1"), Cfg("v2c"), Cfg("v3", auth=2, priv=2, discover=True))], chunk=1)
